@@ -18,7 +18,7 @@
    trees.  Floats are tokens of a `Num` reading; `repr(float)`, `Op.str`, `float(str)`, `Function.parse` and
    `Rule.load` enter through the record `penv`. *)
 From Coq Require Import ZArith Bool List String Ascii.
-From VF Require Import Num Core GenSignatures.
+From VF Require Import Num GenTerm Core GenSignatures.
 Import ListNotations.
 Local Open Scope string_scope.
 Local Open Scope list_scope.
@@ -402,6 +402,20 @@ Section Model.
     end.
 
   (* ---------------------------------------------------------------- repr *)
+  (* the __repr__ of an object of class cls, given its attribute table (values and their printed forms) *)
+  Definition repr_obj (a : alias) (cls : string) (tbl : attr_tbl pyexpr) : result pyexpr :=
+    match find_class cls with
+    | None => Ok (EOpaque cls)
+    | Some cs =>
+        match cs_repr cs with
+        | RConstructor src steps positional =>
+            do k <- as_constructor cs src steps positional tbl;
+            Ok (ECall (qualify a (cs_module cs) cls) (fst k) (snd k))
+        | RRuleCreate => do t <- rule_text tbl; Ok (ECall (qualify a (cs_module cs) cls ++ ["create"]) [ERawStr t] [])
+        | RLambdaStub => Ok (ECall (qualify a (cs_module cs) cls) [ELambdaStub] [])
+        | RNone => Ok (EOpaque cls)
+        end
+    end.
   Fixpoint repr (a : alias) (v : pyval) : result pyexpr :=
     match v with
     | VNone => Ok ENone | VBool b => Ok (EBool b) | VInt z => Ok (EInt z) | VStr s => Ok (EStr s)
@@ -411,22 +425,11 @@ Section Model.
     | VDict l => do es <- sequence_kv (sort_kv (map (fun kv => (fst kv, repr a (snd kv))) l)); Ok (EDict es)   (* keys sorted, then printed *)
     | VEnum _ k => Ok (EStr k)
     | VObj cls fields =>
-        let tbl := map (fun kv => (fst kv, ((snd kv, repr a (snd kv)),
-                      match snd kv with
-                      | VObj _ fs => map (fun kv2 => (fst kv2, (snd kv2, repr a (snd kv2)))) fs
-                      | _ => [] end))) fields in
-        match find_class cls with
-        | None => Ok (EOpaque cls)
-        | Some cs =>
-            match cs_repr cs with
-            | RConstructor src steps positional =>
-                do k <- as_constructor cs src steps positional tbl;
-                Ok (ECall (qualify a (cs_module cs) cls) (fst k) (snd k))
-            | RRuleCreate => do t <- rule_text tbl; Ok (ECall (qualify a (cs_module cs) cls ++ ["create"]) [ERawStr t] [])
-            | RLambdaStub => Ok (ECall (qualify a (cs_module cs) cls) [ELambdaStub] [])
-            | RNone => Ok (EOpaque cls)
-            end
-        end
+        repr_obj a cls
+          (map (fun kv => (fst kv, ((snd kv, repr a (snd kv)),
+                  match snd kv with
+                  | VObj _ fs => map (fun kv2 => (fst kv2, (snd kv2, repr a (snd kv2)))) fs
+                  | _ => [] end))) fields)
     | VEngineRef => Err EInternal        (* the engine's own repr: unbounded recursion; every __repr__ pops `engine` *)
     | VTree _ => Ok (EOpaque "Node")
     | VLoaded => Ok (EOpaque "expression")
@@ -775,6 +778,19 @@ Section Model.
   Definition construct (a : alias) (e : pyexpr) : result pyval := eval a e.
 
   (* ---------------------------------------------------------------- normalize: eval ∘ repr without the syntax *)
+  Definition normalize_obj (cls : string) (tbl : attr_tbl pyval) : result pyval :=
+    match find_class cls with
+    | None => Err ESyntax
+    | Some cs =>
+        match cs_repr cs with
+        | RConstructor src steps positional =>
+            do k <- as_constructor cs src steps positional tbl;
+            instantiate cls (fst k) (snd k)
+        | RRuleCreate => do t <- rule_text tbl; if raw_safe t then rule_create [VStr t] [] else Err ESyntax
+        | RLambdaStub => instantiate cls [VOpaque "lambda a, b: ..."] []
+        | RNone => Err ESyntax
+        end
+    end.
   Fixpoint normalize (v : pyval) : result pyval :=
     match v with
     | VNone => Ok VNone | VBool b => Ok (VBool b) | VInt z => Ok (VInt z) | VStr s => Ok (VStr s)
@@ -784,22 +800,11 @@ Section Model.
     | VDict l => do vs <- sequence_kv (sort_kv (map (fun kv => (fst kv, normalize (snd kv))) l)); Ok (VDict vs)
     | VEnum _ k => Ok (VStr k)                  (* an enumeration member prints as the string the constructors accept *)
     | VObj cls fields =>
-        let tbl := map (fun kv => (fst kv, ((snd kv, normalize (snd kv)),
-                      match snd kv with
-                      | VObj _ fs => map (fun kv2 => (fst kv2, (snd kv2, normalize (snd kv2)))) fs
-                      | _ => [] end))) fields in
-        match find_class cls with
-        | None => Err ESyntax
-        | Some cs =>
-            match cs_repr cs with
-            | RConstructor src steps positional =>
-                do k <- as_constructor cs src steps positional tbl;
-                instantiate cls (fst k) (snd k)
-            | RRuleCreate => do t <- rule_text tbl; if raw_safe t then rule_create [VStr t] [] else Err ESyntax
-            | RLambdaStub => instantiate cls [VOpaque "lambda a, b: ..."] []
-            | RNone => Err ESyntax
-            end
-        end
+        normalize_obj cls
+          (map (fun kv => (fst kv, ((snd kv, normalize (snd kv)),
+                  match snd kv with
+                  | VObj _ fs => map (fun kv2 => (fst kv2, (snd kv2, normalize (snd kv2)))) fs
+                  | _ => [] end))) fields)
     | VEngineRef => Err EInternal
     | VTree _ | VLoaded | VOpaque _ => Err ESyntax
     end.
@@ -833,11 +838,29 @@ Section Model.
     | SImportStar m => if String.eqb m "fuzzylite" then Some AStar else None
     | _ => None
     end.
+  (* does the expression call something through the bare name n? (after `from fuzzylite import *`, `class n:` rebinds n) *)
+  Fixpoint expr_uses (n : string) (e : pyexpr) : bool :=
+    match e with
+    | ECall f args kwargs =>
+        match f with h :: _ => String.eqb h n | [] => false end
+        || existsb (expr_uses n) args || existsb (fun kv => expr_uses n (snd kv)) kwargs
+    | EName p => match p with h :: _ => String.eqb h n | [] => false end
+    | ENeg e' => expr_uses n e'
+    | EList l => existsb (expr_uses n) l
+    | EDict l => existsb (fun kv => expr_uses n (snd kv)) l
+    | _ => false
+    end.
   Definition run_module (m : list (pystmt T)) : result pyval :=
     match m with
     | [imp; SClassInit name attr e] =>
         match import_alias imp with
-        | Some a => if ident_ok name then eval a e else Err ESyntax
+        | Some a =>
+            if ident_ok name then
+              match a with
+              | AStar => if expr_uses name e then Err EInternal else eval a e   (* the new class shadows the library's name *)
+              | _ => eval a e
+              end
+            else Err ESyntax
         | None => Err EInternal end
     | [imp; SDefReturn f ann e] =>
         match import_alias imp with
@@ -846,3 +869,131 @@ Section Model.
     | _ => Err EInternal
     end.
 End Model.
+
+(* ================================================================== typed view of the objects an engine is made of.
+   `pengine` etc. describe the well-shaped states (what the constructors, the importers and attribute assignment of the
+   annotated types can produce); `*_val` gives the Python object (class + vars(self), in the order __init__ assigns).
+   The closed forms of `normalize` are stated on these types (Proofs/PyReprProofs.v). *)
+Section Typed.
+  Context {T : Type} {N : Num T}.
+  Notation pyval := (pyval T).
+
+  Definition shape_set_height (s : shape T) (h : T) : shape T :=
+    match s with
+    | Sh_Arc a b _ => Sh_Arc a b h | Sh_Bell a b c _ => Sh_Bell a b c h | Sh_Binary a b _ => Sh_Binary a b h
+    | Sh_Concave a b _ => Sh_Concave a b h | Sh_Constant v => Sh_Constant v | Sh_Cosine a b _ => Sh_Cosine a b h
+    | Sh_Gaussian a b _ => Sh_Gaussian a b h | Sh_GaussianProduct a b c d _ => Sh_GaussianProduct a b c d h
+    | Sh_PiShape a b c d _ => Sh_PiShape a b c d h | Sh_Ramp a b _ => Sh_Ramp a b h | Sh_Rectangle a b _ => Sh_Rectangle a b h
+    | Sh_SemiEllipse a b _ => Sh_SemiEllipse a b h | Sh_Sigmoid a b _ => Sh_Sigmoid a b h
+    | Sh_SigmoidDifference a b c d _ => Sh_SigmoidDifference a b c d h | Sh_SigmoidProduct a b c d _ => Sh_SigmoidProduct a b c d h
+    | Sh_Spike a b _ => Sh_Spike a b h | Sh_SShape a b _ => Sh_SShape a b h | Sh_Trapezoid a b c d _ => Sh_Trapezoid a b c d h
+    | Sh_Triangle a b c _ => Sh_Triangle a b c h | Sh_ZShape a b _ => Sh_ZShape a b h
+    end.
+
+  (* ---- terms *)
+  Inductive pterm : Type :=
+    | PShape (name : string) (s : shape T)                         (* the 19 parametric shapes and Constant *)
+    | PDiscrete (name : string) (rows : list (T * T)) (height : T) (* values: an (n, 2) array, n >= 1 *)
+    | PLinear (name : string) (coefficients : list T) (in_engine : bool)    (* in_engine: .engine is set *)
+    | PFunction (name formula : string) (variables : list (string * T)) (loaded in_engine : bool).
+  Definition pterm_name (t : pterm) : string :=
+    match t with PShape n _ | PDiscrete n _ _ | PLinear n _ _ | PFunction n _ _ _ _ => n end.
+  Definition engine_ref (b : bool) : pyval := if b then VEngineRef else VNone.
+  Fixpoint remove_key {A} (k : string) (l : list (string * A)) : list (string * A) :=
+    match l with [] => [] | (k', v) :: tl => if String.eqb k k' then remove_key k tl else (k', v) :: remove_key k tl end.
+  Definition shape_val (name : string) (s : shape T) : pyval :=
+    let cls := shape_class s in
+    let pnames := match find_class cls with Some cs => List.tl (map p_name (cs_params cs)) | None => [] end in
+    VObj cls (("name", VStr name) :: ("height", VFloat (shape_height s)) :: remove_key "height" (combine pnames (map VFloat (shape_args s)))).
+  Definition term_val (t : pterm) : pyval :=
+    match t with
+    | PShape n s => shape_val n s
+    | PDiscrete n rows h =>
+        VObj "Discrete" [("name", VStr n); ("height", VFloat h); ("values", VArr (map (fun r => VArr [VFloat (fst r); VFloat (snd r)]) rows))]
+    | PLinear n cs e =>
+        VObj "Linear" [("name", VStr n); ("height", VFloat (lit 1 0)); ("coefficients", VList (map VFloat cs)); ("engine", engine_ref e)]
+    | PFunction n f vars loaded e =>
+        VObj "Function" [("name", VStr n); ("height", VFloat (lit 1 0)); ("root", if loaded then VTree f else VNone); ("formula", VStr f);
+                         ("engine", engine_ref e); ("variables", VDict (map (fun kv => (fst kv, VFloat (snd kv))) vars))]
+    end.
+
+  (* ---- operators, defuzzifiers, activation methods: class names of the translated table *)
+  Definition norm_val (cls : string) : pyval := VObj cls [].
+  Definition opt_val {A} (f : A -> pyval) (o : option A) : pyval := match o with Some x => f x | None => VNone end.
+  Inductive pdefuzzifier : Type :=
+    | PIntegral (cls : string) (resolution : Z)
+    | PWeighted (cls : string) (type : string).       (* type: Automatic | TakagiSugeno | Tsukamoto *)
+  Definition defuzzifier_val (d : pdefuzzifier) : pyval :=
+    match d with
+    | PIntegral cls r => VObj cls [("resolution", VInt r)]
+    | PWeighted cls ty => VObj cls [("type", VEnum "WeightedDefuzzifier.Type" ty)]
+    end.
+  Inductive pactivation : Type :=
+    | PActPlain (cls : string)                                   (* General, Proportional *)
+    | PActN (cls : string) (rules : Z)                           (* Highest, Lowest *)
+    | PActNT (cls : string) (rules : Z) (threshold : T)          (* First, Last *)
+    | PActThreshold (comparator : string) (threshold : T).
+  Definition activation_val (x : pactivation) : pyval :=
+    match x with
+    | PActPlain cls => VObj cls []
+    | PActN cls n => VObj cls [("rules", VInt n)]
+    | PActNT cls n t => VObj cls [("rules", VInt n); ("threshold", VFloat t)]
+    | PActThreshold c t => VObj "Threshold" [("comparator", VEnum "Threshold.Comparator" c); ("threshold", VFloat t)]
+    end.
+
+  (* ---- variables *)
+  Record pinput : Type := {
+    vi_name : string; vi_description : string; vi_enabled : bool; vi_min : T; vi_max : T; vi_lock_range : bool;
+    vi_terms : list pterm; vi_value : T }.
+  Definition input_val (v : pinput) : pyval :=
+    VObj "InputVariable" [("name", VStr (vi_name v)); ("description", VStr (vi_description v)); ("enabled", VBool (vi_enabled v));
+                          ("minimum", VFloat (vi_min v)); ("maximum", VFloat (vi_max v)); ("lock_range", VBool (vi_lock_range v));
+                          ("terms", VList (map term_val (vi_terms v))); ("_value", VFloat (vi_value v))].
+  Record poutput : Type := {
+    vo_name : string; vo_description : string; vo_enabled : bool; vo_min : T; vo_max : T; vo_lock_range : bool;
+    vo_lock_previous : bool; vo_default : T; vo_aggregation : option string; vo_defuzzifier : option pdefuzzifier;
+    vo_terms : list pterm;
+    vo_value : T; vo_previous : T; vo_fuzzy_name : string; vo_fuzzy_terms : list pyval }.   (* run-time state *)
+  Definition output_val (v : poutput) : pyval :=
+    VObj "OutputVariable" [
+      ("fuzzy", VObj "Aggregated" [("name", VStr (vo_fuzzy_name v)); ("height", VFloat (lit 1 0)); ("minimum", VFloat (vo_min v));
+                                   ("maximum", VFloat (vo_max v)); ("aggregation", opt_val norm_val (vo_aggregation v));
+                                   ("terms", VList (vo_fuzzy_terms v))]);
+      ("name", VStr (vo_name v)); ("description", VStr (vo_description v)); ("enabled", VBool (vo_enabled v));
+      ("lock_range", VBool (vo_lock_range v)); ("terms", VList (map term_val (vo_terms v))); ("_value", VFloat (vo_value v));
+      ("defuzzifier", opt_val defuzzifier_val (vo_defuzzifier v)); ("lock_previous", VBool (vo_lock_previous v));
+      ("default_value", VFloat (vo_default v)); ("previous_value", VFloat (vo_previous v))].
+
+  (* ---- rules: the antecedent and consequent are kept as the words of their text *)
+  Record prule : Type := {
+    ru_enabled : bool; ru_weight : T; ru_antecedent : list string; ru_consequent : list string;
+    ru_loaded : bool; ru_degree : T; ru_triggered : bool }.
+  Definition rule_val (r : prule) : pyval :=
+    VObj "Rule" [("enabled", VBool (ru_enabled r)); ("weight", VFloat (ru_weight r)); ("activation_degree", VFloat (ru_degree r));
+                 ("triggered", VBool (ru_triggered r));
+                 ("antecedent", VObj "Antecedent" [("text", VStr (join_sp (ru_antecedent r))); ("expression", if ru_loaded r then VLoaded else VNone)]);
+                 ("consequent", VObj "Consequent" [("text", VStr (join_sp (ru_consequent r))); ("conclusions", if ru_loaded r then VLoaded else VList [])])].
+  Record pblock : Type := {
+    bl_name : string; bl_description : string; bl_enabled : bool;
+    bl_conjunction : option string; bl_disjunction : option string; bl_implication : option string;
+    bl_activation : option pactivation; bl_rules : list prule }.
+  Definition block_val (b : pblock) : pyval :=
+    VObj "RuleBlock" [("name", VStr (bl_name b)); ("description", VStr (bl_description b)); ("enabled", VBool (bl_enabled b));
+                      ("conjunction", opt_val norm_val (bl_conjunction b)); ("disjunction", opt_val norm_val (bl_disjunction b));
+                      ("implication", opt_val norm_val (bl_implication b)); ("activation", opt_val activation_val (bl_activation b));
+                      ("rules", VList (map rule_val (bl_rules b)))].
+  Record pengine : Type := {
+    en_name : string; en_description : string; en_inputs : list pinput; en_outputs : list poutput; en_blocks : list pblock }.
+  Definition engine_val (e : pengine) : pyval :=
+    VObj "Engine" [("name", VStr (en_name e)); ("description", VStr (en_description e));
+                   ("input_variables", VList (map input_val (en_inputs e))); ("output_variables", VList (map output_val (en_outputs e)));
+                   ("rule_blocks", VList (map block_val (en_blocks e)))].
+End Typed.
+Arguments pterm T : clear implicits.
+Arguments pdefuzzifier : clear implicits.
+Arguments pactivation T : clear implicits.
+Arguments pinput T : clear implicits.
+Arguments poutput T : clear implicits.
+Arguments prule T : clear implicits.
+Arguments pblock T : clear implicits.
+Arguments pengine T : clear implicits.
